@@ -8,18 +8,23 @@ tier = "quick"
 if "--tier" in args:
     i = args.index("--tier"); tier = args[i + 1]; del args[i:i + 2]
 patch, checks = os.path.abspath(args[0]), args[1:]
-assert subprocess.run(["git", "-C", "/repo", "status", "--porcelain"], capture_output=True, text=True).stdout.strip() == "", "/repo is not clean"
-subprocess.check_call(["git", "-C", "/repo", "apply", patch])
+# scratch copies (a worktree of /repo and a copy of /verif with its own build output) can be named through the
+# environment, so that a long regression pass does not occupy /repo: SEED_REPO, SEED_VERIF
+REPO = os.environ.get("SEED_REPO", REPO)
+VERIF = os.environ.get("SEED_VERIF", "/verif")
+ENV = dict(os.environ, UCG_REPO=REPO) if REPO != REPO else dict(os.environ)
+assert subprocess.run(["git", "-C", REPO, "status", "--porcelain"], capture_output=True, text=True).stdout.strip() == "", "the repository copy is not clean"
+subprocess.check_call(["git", "-C", REPO, "apply", patch])
 try:
     for c in checks:
-        p = subprocess.run(["./verif.py", "check", c, "--tier", tier], cwd="/verif", capture_output=True, text=True)
+        p = subprocess.run(["./verif.py", "check", c, "--tier", tier], cwd=VERIF, env=ENV, capture_output=True, text=True)
         lines = [l for l in p.stdout.splitlines() if l.startswith(("VIOLATION", "  sig:", "MACHINERY")) or " quick:" in l or " thorough:" in l]
         print("== %s rc=%d" % (c, p.returncode))
         for l in lines[:14]:
             print("   " + l[:220])
 finally:
-    subprocess.check_call(["git", "-C", "/repo", "checkout", "--", "."])
-    subprocess.call(["git", "-C", "/repo", "clean", "-fdq", "--", "src", "std"])
+    subprocess.check_call(["git", "-C", REPO, "checkout", "--", "."])
+    subprocess.call(["git", "-C", REPO, "clean", "-fdq", "--", "src", "std"])
     # restore evidence written by the run against the seeded tree
-    subprocess.call(["git", "-C", "/verif", "checkout", "--", "evidence"])
-    subprocess.call("rm -rf /verif/replays/*", shell=True)
+    subprocess.call(["git", "-C", VERIF, "checkout", "--", "evidence"])
+    subprocess.call("rm -rf %s/replays/*" % VERIF, shell=True)
